@@ -406,7 +406,13 @@ fn run_d(case: &str, st: &mut Stats) -> Outcome {
     if input.iter().any(|c| c.is_empty()) { st.bump("d_empty_clause") }
     if input.iter().zip(cnf.clauses()).any(|(a, b)| a.len() != b.len()) { st.bump("d_dedup_fired") }
     Outcome {
-        result: format!("D {} => {} nv={}", ls.join(" / "), show_clauses(back.clauses()), back.num_vars()),
+        result: format!(
+            "D {} => {} nv={} text={}",
+            ls.join(" / "),
+            show_clauses(back.clauses()),
+            back.num_vars(),
+            text.replace('\n', "|").replace(' ', "_")
+        ),
         fails,
         nontrivial: input.iter().filter(|c| c.len() >= 2).count() >= 1,
     }
